@@ -442,12 +442,13 @@ def run(ctx):
     vo = nf.functions.get("vector_obj")
     params = [a.arg for a in vo.args.args] if vo is not None else []
     ctx.ob("C07.obj-overload", "vector_obj parameters", params[1:] == NAMES19 and params[:1] == ["unrecognized_argument"], f"parameters {params}", None, NUMBA_OBJ)
+    _type_identity(ctx, nf)
     # ---- (8) Awkward-Numba typers ---------------------------------------------------------------------------------
     import itertools
     from ..peval import BUILTINS
     from ..ufuncs import extract_awkward_behaviors
     ctx.rule("C07.awkward-typer", "_numba_typer_<Name> builds <Flavor>Object<N>DType from _aztype_of/_ltype_of/_ttype_of with is_momentum = (Flavor is Momentum), and is registered for that record name")
-    ctx.rule("C07.awkward-typer-fields", "_aztype_of/_ltype_of/_ttype_of pick, for every subset of a group's field names, a coordinate class whose components come from spellings of its own coordinates (synonyms only when is_momentum), else TypingError")
+    ctx.rule("C07.awkward-typer-fields", "_aztype_of/_ltype_of/_ttype_of pick, for every subset of a group's field names, the coordinate class the interpreter picks (first complete of x-y | rho-phi, z | theta | eta, t | tau), with components from spellings of its own coordinates (synonyms only when is_momentum), else TypingError")
     af = facts("src/vector/backends/awkward.py", ctx.repo)
     tab = extract_awkward_behaviors(ctx.repo)
     for flavor in ("Vector", "Momentum"):
@@ -497,8 +498,10 @@ def run(ctx):
                         try:
                             I.call_function(f, [rt, mom], {})
                             inst = got[0] if got else None
-                            ok = isinstance(inst, Inst) and inst.cls.name in complete
-                            msg = f"builds {inst!r}; complete coordinate sets available: {complete}"
+                            # when several coordinate sets are complete the interpreter (…Awkward.from_fields / from_momentum_fields)
+                            # takes the first of x-y | rho-phi, z | theta | eta, t | tau: compiled code must see the same vector
+                            ok = isinstance(inst, Inst) and bool(complete) and inst.cls.name == complete[0]
+                            msg = f"builds {inst!r}; complete coordinate sets available (interpreter's priority first): {complete}"
                             if ok:
                                 for fld in classes[inst.cls.name]:
                                     v = inst.attrs.get(fld)
@@ -523,3 +526,49 @@ def run(ctx):
         envA["_arraytype_of"] = saved
     ctx.decline("Numba typing/lowering/boxing/unboxing, LLVM code generation")
     ctx.decline("result wrapping inside each overload beyond flavor/dimension helpers; the Awkward-Numba typer and lowering")
+
+
+def _type_identity(ctx, nf):
+    """Numba identifies a type by its name: the name must spell the class and every type parameter"""
+    ctx.rule("C07.type-identity", "every numba.types.Type subclass of _numba_object.py names itself with an f-string that starts with its own class name and interpolates every "
+                                  "parameter of __init__: Numba interns types by name, so a parameter left out makes two different coordinate-system types one and the same "
+                                  "(the second signature compiled in a process silently runs with the first one's layout)")
+    bases = {c: [unparse(b) for b in node.bases] for c, node in nf.classes.items()}
+
+    def is_type(c, seen=()):
+        if c in seen:
+            return False
+        return any(b.endswith("types.Type") or is_type(b, (*seen, c)) for b in bases.get(c, []))
+
+    n = 0
+    for cname, cnode in nf.classes.items():
+        if not is_type(cname):
+            continue
+        init = next((st for st in cnode.body if isinstance(st, ast.FunctionDef) and st.name == "__init__"), None)
+        if init is None:
+            continue
+        n += 1
+        params = [a.arg for a in init.args.args][1:]
+        names = []
+        for sub in ast.walk(init):
+            if isinstance(sub, ast.keyword) and sub.arg == "name":
+                names.append(sub.value)
+            elif isinstance(sub, ast.Assign) and any(unparse(t) == "self.name" for t in sub.targets):
+                names.append(sub.value)
+        msg = ""
+        if not names:
+            msg = "no name= / self.name in __init__"
+        else:
+            v = names[-1]  # the assignment that wins
+            if not isinstance(v, ast.JoinedStr):
+                msg = f"name is `{unparse(v)[:80]}`, expected an f-string of the class name and the parameters"
+            else:
+                lit = "".join(p.value for p in v.values if isinstance(p, ast.Constant) and isinstance(p.value, str))
+                used = {nm.id for p in v.values if isinstance(p, ast.FormattedValue) for nm in ast.walk(p.value) if isinstance(nm, ast.Name)}
+                missing = [p_ for p_ in params if p_ not in used]
+                if not lit.startswith(cname):
+                    msg = f"name starts with `{lit[:40]}`, not with the class name {cname}"
+                elif missing:
+                    msg = f"the name leaves out the type parameter(s) {missing}: types that differ only there would be interned as one"
+        ctx.ob("C07.type-identity", cname, not msg, msg, None, f"{NUMBA_OBJ}:{cnode.lineno}")
+    ctx.anchor("numba type classes", n, 6)
